@@ -128,9 +128,10 @@ theorem match_conditions :
        "if subkey != \"*\" && k.SubKey != subkey"] ∧
     Lookupd.needFilter = ["return return key == \"*\" || subkey == \"*\""] := by decide
 
-/-- `doLookup`, `doNodes` as in the tree: every `RegistrationDB` read takes the read lock by itself — three critical
-sections (`lookupSecs false`), 1 + 2n (`nodesSecs false`); findings `race:lookup-vs-topic-delete`,
-`race:nodes-vs-topic-delete` … -/
+/-- `doLookup`, `doNodes` BEFORE commit 682420a (F37): every `RegistrationDB` read took the read lock by itself — three
+critical sections (`lookupSecs false`), 1 + 2n (`nodesSecs false`); findings `race:lookup-vs-topic-delete`,
+`race:nodes-vs-topic-delete` (fixed). Kept only as the description of the old shape: NO theorem accepts it any more
+(audit B12) — with F37 reverted `readers_shape` fails and this module does not build. -/
 def readersShapeSections : Prop :=
     Lookupd.lookupStmts =
       ["assign registration := s.nsqlookupd.DB.FindRegistrations(\"topic\", topicName, \"\")",
@@ -152,10 +153,10 @@ def readersShapeSections : Prop :=
     Lookupd.callsFindRegistrationsBody = [] ∧ Lookupd.callsFindProducersBody = [] ∧
     Lookupd.callsLookupRegistrationsBody = [] ∧ Lookupd.lookupRegistrationsBodyStmts = []
 
-/-- … or with the proposed fix F37: the handler takes `DB.RLock()` once (as `doDebug` does) and calls the unlocked
+/-- The tree since commit 682420a (F37): the handler takes `DB.RLock()` once (as `doDebug` does) and calls the unlocked
 bodies `findRegistrations` / `findProducers` / `lookupRegistrations` (which take no lock; the exported methods are
 `RLock` + body) — ONE critical section (`lookupSecs true`, `nodesSecs true`), with `FilterByActive` / `IsTombstoned`
-evaluated inside it. Both have the sequential behaviour of `qLookup` / `qNodes`. -/
+evaluated inside it. The sequential behaviour is that of `qLookup` / `qNodes`. -/
 def readersShapeAtomic : Prop :=
     Lookupd.lookupStmts =
       ["assign registration := s.nsqlookupd.DB.findRegistrations(\"topic\", topicName, \"\")",
@@ -183,17 +184,23 @@ def readersShapeAtomic : Prop :=
 instance : Decidable readersShapeSections := by unfold readersShapeSections; infer_instance
 instance : Decidable readersShapeAtomic := by unfold readersShapeAtomic; infer_instance
 
-/-- exactly the two shapes (F37 is proposed, not committed: until then the old shape is the tree) -/
-theorem readers_shape : readersShapeSections ∨ readersShapeAtomic := by decide
+/-- F37 is committed (/repo 682420a): ONLY the one-critical-section shape is accepted (audit B12). With F37 reverted
+this fails (and the race leg reproduces `race:lookup-vs-topic-delete` / `race:nodes-vs-topic-delete`, listed `fixed`,
+as VIOLATIONs). -/
+theorem readers_shape : readersShapeAtomic := by decide
 
 /-- COMPUTED from the regenerated facts: are `GET /lookup` and `GET /nodes` one critical section each? -/
 def readersAtomic : Bool := decide readersShapeAtomic
 
+/-- the equality the theorems `Props.C14.concurrent_readers_linearizable_this_tree` rest on -/
+theorem readers_atomic : readersAtomic = true := by decide
+
 /-- `doDebug` reads the whole map, incl. `tombstoned`/`tombstonedAt`, under one `RLock` -/
 theorem debug_shape : Lookupd.callsDebug = ["RLock", "RUnlock"] := by decide
 
-/-- `POST /topic/tombstone` as in the tree: `FindProducers` (one critical section), then `p.Tombstone()` on the matching
-producers with NO lock held — the writes race with the readers (finding `race:tombstone-unlocked-write`) … -/
+/-- `POST /topic/tombstone` BEFORE commit 415122f (F38): `FindProducers` (one critical section), then `p.Tombstone()` on
+the matching producers with NO lock held — the writes raced with the readers (finding `race:tombstone-unlocked-write`,
+fixed). Kept only as the description of the old shape; no theorem accepts it any more (audit B12). -/
 def tombShapeUnlocked : Prop :=
     Lookupd.tombstoneStmts =
       ["assign producers := s.nsqlookupd.DB.FindProducers(\"topic\", topicName, \"\")",
@@ -202,8 +209,8 @@ def tombShapeUnlocked : Prop :=
     Lookupd.callsTombstone = ["FindProducers", "Tombstone"] ∧
     Lookupd.callsTombstoneProducers = [] ∧ Lookupd.tombstoneProducersStmts = []
 
-/-- … or with the proposed fix F38: `RegistrationDB.TombstoneProducers` finds and marks under ONE `Lock()`. Both have the
-sequential behaviour of `tombstoneDB`. -/
+/-- The tree since commit 415122f (F38): `RegistrationDB.TombstoneProducers` finds and marks under ONE `Lock()`. The
+sequential behaviour is `tombstoneDB`. -/
 def tombShapeLocked : Prop :=
     Lookupd.tombstoneStmts = [] ∧
     Lookupd.callsTombstone = ["TombstoneProducers"] ∧
@@ -215,14 +222,18 @@ def tombShapeLocked : Prop :=
 instance : Decidable tombShapeUnlocked := by unfold tombShapeUnlocked; infer_instance
 instance : Decidable tombShapeLocked := by unfold tombShapeLocked; infer_instance
 
-theorem tombstone_shape : tombShapeUnlocked ∨ tombShapeLocked := by decide
+/-- F38 is committed (/repo 415122f): ONLY the locked shape is accepted (audit B12); with F38 reverted this fails and the
+`-race` leg reports `race:tombstone-unlocked-write` (listed `fixed`) as a VIOLATION with the detector's report. -/
+theorem tombstone_shape : tombShapeLocked := by decide
 
 /-- COMPUTED: is the tombstone step of the model (`tombstoneDB`, one step) one critical section of the code, i.e. are the
 marks written under `Lock()` (F38) AND read under `RLock()` (F37: `FilterByActive`/`IsTombstoned` inside the readers'
-critical section; `doDebug` always)? Until both fixes are committed this is `false` and "every step of the model is
-atomic in the code" is an ASSUMPTION for the tombstone step (named in manifest.d/C14.json), refuted on every run by the
-`-race` leg (known finding). -/
+critical section; `doDebug` always)? Both fixes are committed: `tombstone_atomic`. So "every step of the model is atomic
+in the code" is a checked fact for the tombstone step too, no longer an assumption; the `-race` leg stays as the
+behavioural twin. -/
 def tombstoneAtomic : Bool := decide tombShapeLocked && readersAtomic
+
+theorem tombstone_atomic : tombstoneAtomic = true := by decide
 
 theorem admin_calls :
     Lookupd.callsCreateTopic = ["NewReqParams", "Get", "IsValidTopicName", "AddRegistration"] ∧
